@@ -123,6 +123,18 @@ pub fn write_corpus(dir: &str, seed: u64) -> Result<usize, String> {
 			put("c06_csr", 0, &der)?;
 		}
 	}
+	// structure-aware seeds: unusual CA certificates and key documents
+	for i in 0..60u8 {
+		let o = crate::props::c10::odd_ca().new_tree(&mut runner).map_err(|e| e.to_string())?.current();
+		if let Ok(der) = crate::props::c10::forge_odd_ca(&o) {
+			put("c10_parse", i << 1, &der)?;
+			put("c03_import", 0, &der)?;
+		}
+		let k = crate::props::c10::odd_key().new_tree(&mut runner).map_err(|e| e.to_string())?.current();
+		if let Ok(der) = crate::props::c10::forge_odd_key(&k) {
+			put("c10_parse", i << 1, &der)?;
+		}
+	}
 	for alg in keys::available_algs() {
 		for fx in &keys::fixtures().pools[&alg] {
 			put("c10_parse", 4, &fx.pk8)?;
